@@ -376,6 +376,21 @@ impl Env {
         }
     }
 
+    /// A copy of the environment for a part that needs other settings (struct-update syntax).
+    pub fn clone_for_part(&self) -> Self {
+        Self {
+            property: self.property.clone(),
+            tier: self.tier,
+            seed: self.seed,
+            shards: self.shards,
+            known: self.known.clone(),
+            replay: self.replay.clone(),
+            known_hits: Mutex::default(),
+            start: self.start,
+            abort: AtomicBool::new(false),
+        }
+    }
+
     /// Mode.
     pub fn mode(&self) -> Mode {
         match &self.replay {
